@@ -994,7 +994,7 @@ func replay(c *common.Ctx, path string) int {
 
 func init() {
 	common.Register(&common.Prop{
-		ID: "C15", Level: "exploration", Run: run, Coverage: coverage, Replay: replay,
+		ID: "C15", Level: "exploration", Run: run, Coverage: coverage, Replay: replay, Race: raceBody,
 		Assumptions: []string{
 			"sequential calls only: the clause 'also under concurrent calls' is not decided here",
 			"termination: every ParseSrc call runs on its own goroutine; a call that has not returned after 180 s (the longest text parses in milliseconds) is reported as termination/ParseSrc and the rest of the run is skipped",
